@@ -107,10 +107,11 @@ pub fn column(r: &mut Rng) -> String {
 
 fn int_expr(r: &mut Rng, depth: u32) -> String {
     if depth == 0 || r.chance(2, 5) {
-        return match r.below(6) {
+        return match r.below(10) {
             0 => int_literal(r),
             1 => format!("-{}", int_literal(r)),
             2 => num_literal(r),
+            3 => format!("{}", r.below(20)),
             _ => pick_ident(r, &INT_COLS),
         };
     }
@@ -188,17 +189,17 @@ pub fn alias(r: &mut Rng) -> String {
 }
 
 pub fn select_item(r: &mut Rng, allow_agg: bool) -> String {
-    let base = match r.below(12) {
-        0..=3 => column(r),
-        4 => int_expr(r, 2),
-        5 => bool_expr(r, 1),
-        6 => str_expr(r, 1),
-        7 | 8 if allow_agg => aggregate(r),
-        9 => num_literal(r),
-        10 => match r.below(3) {
+    let base = match r.below(40) {
+        0..=15 => column(r),
+        16..=21 => int_expr(r, 2),
+        22..=25 => bool_expr(r, 1),
+        26..=28 => str_expr(r, 1),
+        29..=36 if allow_agg => aggregate(r),
+        37 => match r.below(4) {
             0 => "NULL".to_string(),
             1 => str_literal(r),
-            _ => format!("-{}", num_literal(r)),
+            2 => format!("-{}", num_literal(r)),
+            _ => num_literal(r),
         },
         _ => column(r),
     };
@@ -221,9 +222,10 @@ pub fn table(r: &mut Rng) -> String {
 }
 
 pub fn limit_text(r: &mut Rng) -> String {
-    match r.below(10) {
-        0..=5 => format!("{}", r.below(40)),
-        6 => "0".into(),
+    match r.below(20) {
+        0..=13 => format!("{}", 1 + r.below(40)),
+        14 => "0".into(),
+        15 => format!("{}", u64::MAX),
         _ => int_literal(r),
     }
 }
@@ -254,7 +256,7 @@ pub fn tail(r: &mut Rng, odd: bool) -> String {
         let n = 1 + r.below(2);
         let keys: Vec<String> = (0..n)
             .map(|_| {
-                let e = if r.chance(1, 4) { int_expr(r, 1) } else { column(r) };
+                let e = if r.chance(1, 6) { int_expr(r, 1) } else { column(r) };
                 match r.below(3) {
                     0 => format!("{} {}", e, kw(r, "DESC")),
                     1 => format!("{} {}", e, kw(r, "ASC")),
@@ -267,8 +269,9 @@ pub fn tail(r: &mut Rng, odd: bool) -> String {
     let lim = if odd && r.chance(1, 2) { Some(odd_count(r)) } else if r.chance(2, 3) { Some(limit_text(r)) } else { None };
     let off = if odd && r.chance(1, 2) {
         Some(odd_count(r))
-    } else if r.chance(1, 4) {
-        Some(limit_text(r))
+    } else if r.chance(1, 10) {
+        // mostly within the table, sometimes beyond it
+        Some(if r.chance(3, 4) { format!("{}", r.below(4)) } else { limit_text(r) })
     } else {
         None
     };
@@ -629,19 +632,189 @@ pub fn tokens(r: &mut Rng) -> String {
     v.join(" ")
 }
 
-/// (class, statement)
+// ---- the `shape` sub-language of the API oracle ---------------------------------------------------
+// Statements whose engine behaviour is plain (bare columns, simple integer arithmetic, aggregates
+// over the non-null integer column, filters, ORDER BY on non-null columns with a LIMIT that avoids
+// the top-n path). Violations in this class are never attributed to the family finding about
+// engine-internal panics (see known_findings.d/front.json): they are matched site by site.
+
+fn shape_table(r: &mut Rng) -> (&'static str, String) {
+    let name = match r.below(20) {
+        0..=11 => "t",
+        12..=14 => "u",
+        15 => "my table",
+        16 => "tbl_é",
+        17 => "_meta_tables",
+        _ => "nosuchtable",
+    };
+    (name, quote_ident(r, name, false))
+}
+
+fn shape_columns(table: &str) -> Vec<&'static str> {
+    match table {
+        "t" => vec!["i", "n", "f", "nf", "s", "ns", "late", "Weird Col", "é", "q\"uote"],
+        "u" => vec!["i", "s"],
+        "_meta_tables" => vec!["name", "timestamp"],
+        _ => vec!["i"],
+    }
+}
+
+fn shape_item(r: &mut Rng, table: &str) -> String {
+    let cols = shape_columns(table);
+    let base = match r.below(20) {
+        0..=10 => {
+            let c = *r.pick(&cols);
+            quote_ident(r, c, false)
+        }
+        11..=12 => pick_ident(r, &MISSING_COLS),
+        13..=16 => {
+            let k = 1 + r.below(9);
+            let op = *r.pick(&["+", "-", "*", "/", "%"]);
+            if r.chance(1, 2) {
+                format!("i {} {}", op, k)
+            } else {
+                format!("{} {} i", k, op)
+            }
+        }
+        17 => "-i".to_string(),
+        18 => "(i)".to_string(),
+        _ => {
+            if cols.contains(&"s") {
+                format!("{}(s)", kw(r, "LENGTH"))
+            } else {
+                "i".to_string()
+            }
+        }
+    };
+    if r.chance(1, 3) {
+        format!("{} {}", base, alias(r))
+    } else {
+        base
+    }
+}
+
+fn shape_aggregate(r: &mut Rng) -> String {
+    let base = match r.below(7) {
+        0 => format!("{}(1)", kw(r, "COUNT")),
+        1 => format!("{}(i)", kw(r, "COUNT")),
+        2 => format!("{}(i)", kw(r, "SUM")),
+        3 => format!("{}(i)", kw(r, "MAX")),
+        4 => format!("{}(i)", kw(r, "MIN")),
+        5 => format!("{}(i)", kw(r, "AVG")),
+        _ => format!("{}(i) + 1", kw(r, "SUM")),
+    };
+    if r.chance(1, 3) {
+        format!("{} {}", base, alias(r))
+    } else {
+        base
+    }
+}
+
+fn shape_filter(r: &mut Rng, table: &str) -> String {
+    let has_s = shape_columns(table).contains(&"s");
+    let k = r.below(14);
+    match r.below(if has_s { 10 } else { 6 }) {
+        0 => format!("i > {}", k),
+        1 => format!("i <= {}", k),
+        2 => format!("i = {}", k),
+        3 => format!("i > {} {} i < {}", k / 2, kw(r, "AND"), k + 3),
+        4 => format!("{} i = {}", kw(r, "NOT"), k),
+        5 => format!("i <> {} {} i = {}", k, kw(r, "OR"), k),
+        6 => format!("s = {}", str_literal(r)),
+        7 => format!("s {} 'a%'", kw(r, "LIKE")),
+        8 => format!("{}(s, '^a')", kw(r, "REGEX")),
+        _ => format!("i = {} {} s = 'b'", k, kw(r, "OR")),
+    }
+}
+
+pub fn shape(r: &mut Rng) -> String {
+    let (tname, tquoted) = shape_table(r);
+    let items: Vec<String> = if r.chance(1, 8) {
+        vec!["*".to_string()]
+    } else if r.chance(1, 5) {
+        let n = 1 + r.below(3);
+        (0..n).map(|_| shape_aggregate(r)).collect()
+    } else {
+        let n = 1 + r.below(4);
+        let mut v: Vec<String> = (0..n).map(|_| shape_item(r, tname)).collect();
+        if r.chance(1, 12) {
+            let at = r.below(v.len() as u64 + 1) as usize;
+            v.insert(at, "*".to_string());
+        }
+        v
+    };
+    let aggregating = items.iter().any(|i| i.contains('('));
+    let mut s = format!("{} {} {} {}", kw(r, "SELECT"), items.join(", "), kw(r, "FROM"), tquoted);
+    if r.chance(2, 5) {
+        s += &format!(" {} {}", kw(r, "WHERE"), shape_filter(r, tname));
+    }
+    let ordered = !aggregating && r.chance(1, 4);
+    if ordered {
+        let key = if shape_columns(tname).contains(&"s") && r.chance(1, 2) { "s" } else { "i" };
+        let dir = match r.below(3) {
+            0 => " DESC",
+            1 => " ASC",
+            _ => "",
+        };
+        s += &format!(" {} {}{}", kw(r, "ORDER BY"), key, dir);
+    }
+    let mut limited = false;
+    if r.chance(3, 5) {
+        limited = true;
+        let l = match r.below(12) {
+            0 if !ordered => "0".to_string(),
+            1 => format!("{}", u64::MAX),
+            2 => "1000000".to_string(),
+            _ => format!("{}", if ordered { 3 + r.below(30) } else { 1 + r.below(30) }),
+        };
+        s += &format!(" {} {}", kw(r, "LIMIT"), l);
+    }
+    if r.chance(1, 14) {
+        // OFFSET: mostly inside the result and with a LIMIT; beyond it / without LIMIT are the
+        // known classes F5a / F5b
+        let o = if limited && r.chance(3, 4) { r.below(3) } else { r.below(40) };
+        s += &format!(" {} {}", kw(r, "OFFSET"), o);
+    }
+    s
+}
+
+/// (class, statement) for the conversion differential (no engine involved): everything
 pub fn any(r: &mut Rng) -> (&'static str, String) {
-    match r.below(20) {
-        0..=6 => ("supported", supported(r)),
-        7..=8 => ("limits", limits(r)),
-        9..=10 => ("quoting", quoting(r)),
-        11..=13 => ("unsupported", unsupported(r)),
-        14..=17 => {
-            let base = match r.below(4) {
+    match r.below(40) {
+        0..=13 => ("probe", supported(r)),
+        14..=17 => ("shape", shape(r)),
+        18..=19 => ("limits", limits(r)),
+        20..=21 => ("quoting", quoting(r)),
+        22..=28 => ("unsupported", unsupported(r)),
+        29..=37 => {
+            let base = match r.below(8) {
                 0 => limits(r),
                 1 => quoting(r),
-                2 => unsupported(r),
+                2 | 3 => unsupported(r),
+                4 => shape(r),
                 _ => supported(r),
+            };
+            ("mutation", mutate(r, &base))
+        }
+        _ => ("tokens", tokens(r)),
+    }
+}
+
+/// (class, statement) for the API oracle: mostly the `shape` sub-language; the rich expression
+/// grammar (`probe`) is capped
+pub fn any_api(r: &mut Rng) -> (&'static str, String) {
+    match r.below(40) {
+        0..=18 => ("shape", shape(r)),
+        19..=21 => ("probe", supported(r)),
+        22 => ("limits", limits(r)),
+        23..=24 => ("quoting", quoting(r)),
+        25..=31 => ("unsupported", unsupported(r)),
+        32..=38 => {
+            let base = match r.below(8) {
+                0 => limits(r),
+                1 => quoting(r),
+                2 | 3 => unsupported(r),
+                _ => shape(r),
             };
             ("mutation", mutate(r, &base))
         }
